@@ -2,7 +2,7 @@
 from .. import env, histgen, session, wire, scripts, refmatch as rm
 from ..runner import Prop, Stage, Result
 
-PROFILE = dict(reuse=0.6, weights=dict(repeat=4, newer=4, delete=12, bind=12, message=52, server_event=8, sync=6, enum=10, title=8, appid=5))
+PROFILE = dict(reuse=0.6, weights=dict(repeat=4, newer=4, delete=12, bind=12, message=52, server_event=8, sync=6, enum=10, title=8, appid=5, long_line=2))
 
 
 def evaluate(case, res):
